@@ -53,6 +53,15 @@ def _entry_rules(rep: Report, cls, cb_attrs: dict, flag: str = "self.is_stopped"
                        f"`{flag} = True` does not precede the terminal delivery on every path: a re-entrant "
                        f"emission from inside the callback (or a second terminal) would be delivered")
         rep.require(n_deliv > 0 or mname == "fail", f"{m.ref} delivers nothing (anchor changed shape)")
+    fl = cls.child("fail")
+    if fl is not None:
+        tests = [s for s in sites(fl) if isinstance(s.node, ast.If) and any(u(x) == flag for x in ast.walk(s.node.test))]
+        early = [s for s in sites(fl) if tests and s.index < tests[0].index and (
+            (isinstance(s.node, ast.Call) and dotted(s.node.func) in ("self.dispose",)) or
+            (isinstance(s.node, ast.Assign) and any(u(t) == flag for t in s.node.targets)))]
+        rep.ob("R3-guard", fl, "fail(): nothing stops the observer before its is_stopped test", bool(tests) and not early,
+               "fail() marks the observer stopped (dispose() / is_stopped = True) before testing is_stopped: it then always reports "
+               "'already stopped', Observable.subscribe re-raises, and a subscribe-time exception is never delivered as on_error")
     d = cls.child("dispose")
     rep.require(d is not None, f"{cls.ref}.dispose")
     ok = any(assigned_const(s, True) and not s.ctx.branch and not s.ctx.tries for s in assigns_to(d, flag))
